@@ -153,6 +153,21 @@ def run(chk):
         if why:
             chk.violate({"kind": "property", "case": lib.show_case((c[0], [a[:2000] if isinstance(a, bytes) else a for a in c[1]])), "impl": i[:200], "explanation": why})
     chk.extra["entry_points"] = per
+    # the typed-document decoder with nil in the place of its target (nil, a nil *T - for every document type), a slice of
+    # non-structs, a slice of pointers: it returns normally - an error, or (for []*T) the decoded elements - never a panic;
+    # and a target struct with private fields named like fields of the document
+    from props.C09 import PROBES
+    nc = [("cdecodenil", [t.encode(), b"Package: x\nVersion: 1.0\nSource: s\n\nPackage: y\nSource: t\n"]) for t in list(PROBES) + ["dsc", "changes", "binary_index", "source_index"]]
+    for c, r in zip(nc, chk.run_impl(nc)):
+        head, _, tail = r.partition(" | ")
+        if head != "err err err err err err" or not (tail.startswith("err") or tail.startswith("ok ")) or "nil-element" in tail:
+            chk.violate({"kind": "property", "case": lib.show_case(c), "impl": r[:200],
+                         "explanation": "decoding into nil, a nil pointer, a slice of non-structs or a slice of pointers panicked or did not answer with an error / the decoded elements"})
+    pc = [("cprivate", [b"Package: a\nseen: yes\ncount: 3\nnote: n\ntags: t\n"])]
+    for c, r in zip(pc, chk.run_impl(pc)):
+        if "panic" in r:
+            chk.violate({"kind": "property", "case": lib.show_case(c), "impl": r[:200],
+                         "explanation": "a document with fields named like private fields of the target struct made the decoder panic"})
     # repeated and concurrent calls under the race detector
     race = lib.build_race_harness()
     sub = [c for k, c in enumerate(icases) if k % (3 if chk.tier == "quick" else 1) == 0 and len(c[1][-1]) < 2500]
